@@ -498,7 +498,8 @@ func c20xClauseOf(format string, got string, want []string, x *c20xExchange) str
 
 func c20xFeat(clause string, x *c20xExchange) map[string]any {
 	return map[string]any{"sub": "proxy", "clause": clause, "kind": x.Kind, "method": x.Method, "informational": len(x.Info) > 0,
-		"expect": x.Expect, "framing": x.Framing, "ipv6": strings.HasPrefix(x.Raddr, "["), "route": x.Svc}
+		"expect": x.Expect, "framing": x.Framing, "ipv6": strings.HasPrefix(x.Raddr, "["), "route": x.Svc,
+		"fwdhdr": x.FwdHdr, "requestid": x.RidCfg}
 }
 
 type c20xStats struct {
@@ -511,8 +512,22 @@ type c20xRefs map[string][]string
 
 // c20xJudge compares what the logger wrote with the specification's line for what the client got.
 // want: format -> admissible lines (newline stripped, CPORT still abstract).
-func c20xJudge(x *c20xExchange, want map[string][]string, f *c20xFront, rig *c20xRig, ctl *c20xFront, st *c20xStats, refs c20xRefs) {
-	o, skipped := f.play(x)
+func c20xJudge(x *c20xExchange, want map[string][]string, fs *c20xFronts, rig *c20xRig, ctls *c20xFronts, st *c20xStats, refs c20xRefs) {
+	f, err := fs.get(x)
+	if err != nil {
+		verifx.Emit(map[string]any{"kind": "error", "msg": "front: " + err.Error()})
+		return
+	}
+	ctl, err := ctls.get(x)
+	if err != nil {
+		verifx.Emit(map[string]any{"kind": "error", "msg": "front: " + err.Error()})
+		return
+	}
+	o, skipped := f.play(x, rig)
+	aborted := x.Kind == "aborted"
+	if aborted && o.err != nil && o.done.id == x.ID {
+		o.err = nil // the client hung up itself: its error is the stimulus
+	}
 	if skipped {
 		atomic.AddInt64(&st.skipped, 1)
 		return
@@ -522,7 +537,7 @@ func c20xJudge(x *c20xExchange, want map[string][]string, f *c20xFront, rig *c20
 	for k, v := range want {
 		rec.Want[k] = strings.Join(v, "\x00")
 	}
-	desc := fmt.Sprintf("%s %s%s (Host %s, expect=%v) -> %s: upstream script info=%v status=%d %s %v", x.Method, x.Path, c20xQ(x.Query), x.Host, x.Expect, x.Kind, x.Info, x.Status, x.Framing, x.Chunks)
+	desc := fmt.Sprintf("[forwarded-scheme header %s, proxy.header.requestid=%q, client id %q] ", x.FwdHdr, x.RidCfg, x.RidCli) + fmt.Sprintf("%s %s%s (Host %s, expect=%v) -> %s: upstream script info=%v status=%d %s %v", x.Method, x.Path, c20xQ(x.Query), x.Host, x.Expect, x.Kind, x.Info, x.Status, x.Framing, x.Chunks)
 	if o.done.panic != nil {
 		verifx.Fail(rec, c20xFeat("request-panics", x), "HTTPProxy.ServeHTTP panicked: %v\n%s\n%s", o.done.panic, desc, c20pStack(o.done.stack))
 		return
@@ -535,8 +550,8 @@ func c20xJudge(x *c20xExchange, want map[string][]string, f *c20xFront, rig *c20
 	// the client's view against the specification's wire semantics; a difference is judged with a
 	// control run without logger: same difference = the model of net/http is off (inconclusive),
 	// otherwise the logger changed the response
-	if o.status != x.CStatus || (x.CBytes >= 0 && o.bytes != x.CBytes) {
-		c, _ := ctl.play(c20xControl(x))
+	if !aborted && (o.status != x.CStatus || (x.CBytes >= 0 && o.bytes != x.CBytes)) {
+		c, _ := ctl.play(c20xControl(x), rig)
 		atomic.AddInt64(&st.controls, 1)
 		if c.err == nil && (c.status != o.status || c.bytes != o.bytes) {
 			verifx.Fail(rec, c20xFeat("response-altered", x), "with the access logger the client received %d with %d body bytes, without it %d with %d\n%s", o.status, o.bytes, c.status, c.bytes, desc)
@@ -545,8 +560,8 @@ func c20xJudge(x *c20xExchange, want map[string][]string, f *c20xFront, rig *c20
 		verifx.Emit(map[string]any{"kind": "oracle", "msg": fmt.Sprintf("the client received %d with %d body bytes, the specification's wire semantics give %d with %d: %s", o.status, o.bytes, x.CStatus, x.CBytes, desc)})
 		atomic.AddInt64(&st.oracle, 1)
 		return
-	} else if int(atomic.LoadInt64(&st.ran))%8 == 0 {
-		c, _ := ctl.play(c20xControl(x))
+	} else if !aborted && int(atomic.LoadInt64(&st.ran))%8 == 0 {
+		c, _ := ctl.play(c20xControl(x), rig)
 		atomic.AddInt64(&st.controls, 1)
 		if c.err == nil && (c.status != o.status || c.bytes != o.bytes || c.hdr != o.hdr) {
 			verifx.Fail(rec, c20xFeat("response-altered", x), "with the access logger the client received %d / %d bytes / [%s], without it %d / %d bytes / [%s]\n%s", o.status, o.bytes, o.hdr, c.status, c.bytes, c.hdr, desc)
@@ -612,7 +627,7 @@ func c20xJudge(x *c20xExchange, want map[string][]string, f *c20xFront, rig *c20
 		}
 	}
 	// the target that was really contacted
-	if x.Kind == "proxied" || x.Kind == "timeout" {
+	if x.Kind == "proxied" || x.Kind == "timeout" || aborted {
 		v, ok := rig.seen.Load(x.ID)
 		name := x.Target
 		if !strings.Contains(name, ":") {
@@ -624,6 +639,19 @@ func c20xJudge(x *c20xExchange, want map[string][]string, f *c20xFront, rig *c20
 				got = v.(*c20xSeen).server
 			}
 			verifx.Fail(rec, c20xFeat("event-upstream", x), "the line names upstream %s but the request was received by %s\n%s", x.Target, got, desc)
+			return
+		}
+	}
+	// the request id the upstream received is the one that is logged
+	if v, ok := rig.seen.Load(x.ID); ok && (x.Kind == "proxied" || aborted) {
+		wantID := []string(nil)
+		if x.RidCfg != "" {
+			wantID = []string{x.FabioID}
+		} else if x.RidCli != "" {
+			wantID = []string{x.RidCli}
+		}
+		if got := v.(*c20xSeen).reqid; strings.Join(got, "|") != strings.Join(wantID, "|") {
+			verifx.Fail(rec, c20xFeat("event-header", x), "proxy.header.requestid=%q: the upstream received the request id(s) %q, the specification's exchange says %q\n%s", x.RidCfg, got, wantID, desc)
 			return
 		}
 	}
@@ -783,7 +811,10 @@ func c20xRun(t *testing.T) {
 			if x.Kind != "noroute" && x.Kind != "redirect" {
 				continue
 			}
-			o, skipped := f0.play(x)
+			if x.RidCfg != "" {
+				continue
+			}
+			o, skipped := f0.play(x, rig)
 			if skipped || o.err != nil || o.done.panic != nil || strings.Count(o.line, "\n") != 1 {
 				continue // judged in the main phase
 			}
@@ -808,15 +839,11 @@ func c20xRun(t *testing.T) {
 	close(jobs)
 	var ipv6 int32 = 1
 	for w := 0; w < workers; w++ {
-		f, err := c20xNewFront(rig, tbl, formats, true)
-		if err != nil {
+		f := &c20xFronts{rig: rig, tbl: tbl, formats: formats, logger: true, m: map[string]*c20xFront{}}
+		ctl := &c20xFronts{rig: rig, tbl: tbl, formats: formats, logger: false, m: map[string]*c20xFront{}}
+		if f0, err := f.get(&c20xExchange{}); err != nil {
 			t.Fatal(err)
-		}
-		ctl, err := c20xNewFront(rig, tbl, formats, false)
-		if err != nil {
-			t.Fatal(err)
-		}
-		if f.srv6 == nil {
+		} else if f0.srv6 == nil {
 			atomic.StoreInt32(&ipv6, 0)
 		}
 		wg.Add(1)
@@ -829,7 +856,9 @@ func c20xRun(t *testing.T) {
 				if len(replays) > 0 { // a recorded failure may need an earlier proxied request through the same proxy
 					warm := c20xExchange{ID: "warm-up", Kind: "proxied", Method: "GET", Path: "/t1/warm", Host: "front.example", Status: 200,
 						Framing: "length", Chunks: []int{10}, Raddr: "127.0.0.1:CPORT", Target: "backend:8080"}
-					f.play(&warm)
+					if wf, err := f.get(&warm); err == nil {
+						wf.play(&warm, rig)
+					}
 				}
 				c20xJudge(&x, want[x.ID], f, rig, ctl, &st, refs)
 			}
@@ -843,14 +872,8 @@ func c20xRun(t *testing.T) {
 		if err != nil {
 			t.Fatal(err)
 		}
-		f, err := c20xNewFront(rig, tbl, formats, true)
-		if err != nil {
-			t.Fatal(err)
-		}
-		ctl, err := c20xNewFront(rig, tbl, formats, false)
-		if err != nil {
-			t.Fatal(err)
-		}
+		f := &c20xFronts{rig: rig, tbl: tbl, formats: formats, logger: true, m: map[string]*c20xFront{}}
+		ctl := &c20xFronts{rig: rig, tbl: tbl, formats: formats, logger: false, m: map[string]*c20xFront{}}
 		for _, h := range hs {
 			if len(h.XHist) == 0 {
 				continue
